@@ -179,7 +179,12 @@ class Message(BaseMessage):
                      maildir_flags: MaildirFlags) -> Self:
         flag_set = maildir_flags.from_maildir(maildir_msg.get_flags())
         recent = maildir_msg.get_subdir() == 'new'
-        msg_dt = datetime.fromtimestamp(maildir_msg.get_date())
+        msg_date = maildir_msg.get_date()
+        try:
+            msg_dt = datetime.fromtimestamp(msg_date)
+        except (OverflowError, OSError, ValueError):
+            # outside of what the local calendar can express
+            msg_dt = datetime.max if msg_date > 0 else datetime.min
         return cls(uid, msg_dt, flag_set,
                    email_id=email_id, thread_id=thread_id,
                    recent=recent, maildir=maildir, key=key)
